@@ -19,11 +19,11 @@ def FsH.pyName : FsH → String
 def OpSt.pyName : OpSt → String
   | .running => "RUNNING" | .stopped => "STOPPED" | .paused => "PAUSED" | .disabled => "DISABLED"
   | .installing => "INSTALLING" | .restarting => "RESTARTING" | .closed => "CLOSED"
-def SwReq.all : List SwReq := [.close, .compromise, .disable, .enable, .fix, .pause, .restart, .resume, .scan, .start, .stop]
+def SwReq.all : List SwReq := [.close, .compromise, .disable, .enable, .execute, .fix, .pause, .restart, .resume, .scan, .start, .stop]
 def SwReq.pyName : SwReq → String
   | .scan => "scan" | .fix => "fix" | .compromise => "compromise" | .stop => "stop" | .start => "start"
   | .pause => "pause" | .resume => "resume" | .restart => "restart" | .disable => "disable" | .enable => "enable"
-  | .close => "close"
+  | .close => "close" | .execute => "execute"
 
 theorem SwH.all_complete (h : SwH) : h ∈ SwH.all := by cases h <;> decide
 theorem FsH.all_complete (h : FsH) : h ∈ FsH.all := by cases h <;> decide
